@@ -2,102 +2,78 @@ package simfs
 
 // Power-loss images: see the package comment for the model.
 
-// Pending describes, for one inode at one instant, the data operations issued
-// since its last Sync (journal indices).
-type Pending struct {
-	Ino  int
-	Name string
-	Ops  []int // indices into the journal, in order
+// PLState tracks, incrementally along a journal, the durable image (directory operations
+// applied at once, file data only when synced) and the per-inode list of data operations
+// issued since that inode's last Sync.
+type PLState struct {
+	Durable *Image
+	Pending map[int][]Entry
+	Order   []int // inodes with pending operations, in first-seen order
 }
 
-// PLChoice selects, for one inode, how much of its pending list survives:
-// the first Keep operations fully, and (when Cut >= 0 and operation Keep is a
-// write) that write cut at file offset Cut.
+// NewPLState starts from a fully durable base image.
+func NewPLState(base *Image) *PLState {
+	return &PLState{Durable: base.Clone(), Pending: map[int][]Entry{}}
+}
+
+// Advance feeds one journal entry.
+func (p *PLState) Advance(e Entry) {
+	switch e.Kind {
+	case KCreate, KRename, KRemove:
+		p.Durable.Apply(e, -1)
+	case KWrite, KTruncate:
+		if _, ok := p.Pending[e.Ino]; !ok {
+			p.Order = append(p.Order, e.Ino)
+		}
+		p.Pending[e.Ino] = append(p.Pending[e.Ino], e)
+	case KSync:
+		for _, pe := range p.Pending[e.Ino] {
+			p.Durable.Apply(pe, -1)
+		}
+		if _, ok := p.Pending[e.Ino]; ok {
+			delete(p.Pending, e.Ino)
+			for i, ino := range p.Order {
+				if ino == e.Ino {
+					p.Order = append(p.Order[:i:i], p.Order[i+1:]...)
+					break
+				}
+			}
+		}
+	}
+}
+
+// PLChoice selects, for one inode, how much of its pending list survives: the first Keep
+// operations fully and, when Cut >= 0 and operation Keep is a write, that write cut at
+// file offset Cut.
 type PLChoice struct {
 	Keep int
 	Cut  int64
 }
 
-// PendingAt returns, for the instant after journal[:n], the pending list of every
-// inode that has one, sorted by inode id.
-func PendingAt(journal []Entry, n int) []Pending {
-	byIno := map[int]*Pending{}
-	var order []int
-	for i := 0; i < n && i < len(journal); i++ {
-		e := journal[i]
-		switch e.Kind {
-		case KWrite, KTruncate:
-			p := byIno[e.Ino]
-			if p == nil {
-				p = &Pending{Ino: e.Ino, Name: e.Name}
-				byIno[e.Ino] = p
-				order = append(order, e.Ino)
-			}
-			p.Ops = append(p.Ops, i)
-		case KSync:
-			if p := byIno[e.Ino]; p != nil {
-				p.Ops = nil
-			}
-		}
+// Inodes returns the inodes that have pending operations and still have a directory entry.
+func (p *PLState) Inodes() []int {
+	live := map[int]bool{}
+	for _, id := range p.Durable.Dir {
+		live[id] = true
 	}
-	var out []Pending
-	for _, ino := range order {
-		if p := byIno[ino]; len(p.Ops) > 0 {
-			out = append(out, *p)
+	var out []int
+	for _, ino := range p.Order {
+		if live[ino] && len(p.Pending[ino]) > 0 {
+			out = append(out, ino)
 		}
 	}
 	return out
 }
 
-// PowerLossImage materialises one admissible image at the instant after
-// journal[:n]. The base image is taken to be fully durable. choice maps an inode
-// to what survives of its pending list; an inode without an entry keeps nothing
-// of it (only its synced content).
-func PowerLossImage(base *Image, journal []Entry, n int, choice map[int]PLChoice) *Image {
-	im := base.Clone()
-	pend := map[int]map[int]int{} // ino -> journal index -> position in pending list
-	for _, p := range PendingAt(journal, n) {
-		m := map[int]int{}
-		for pos, ji := range p.Ops {
-			m[ji] = pos
-		}
-		pend[p.Ino] = m
-	}
-	for i := 0; i < n && i < len(journal); i++ {
-		e := journal[i]
-		switch e.Kind {
-		case KCreate, KRename, KRemove:
-			im.Apply(e, -1)
-		case KWrite, KTruncate:
-			pos, isPending := pend[e.Ino][i]
-			if !isPending {
-				im.Apply(e, -1)
-				continue
-			}
-			c, ok := choice[e.Ino]
-			if !ok {
-				continue
-			}
-			if pos < c.Keep {
-				im.Apply(e, -1)
-			} else if pos == c.Keep && c.Cut >= 0 && e.Kind == KWrite {
-				im.Apply(e, c.Cut)
-			}
-		}
-	}
-	im.gc()
-	return im
-}
-
-// PLVariants enumerates the per-inode choices for one pending list: every prefix
-// length, and for each write every 512-aligned cut (capped at maxCuts cuts per
-// write, keeping the first and last ones).
-func PLVariants(journal []Entry, p Pending, maxCuts int) []PLChoice {
+// Variants enumerates the choices for one inode: every prefix length and, for each write,
+// 512-aligned cuts (at most maxCuts per write: the first ones and the last one).
+func (p *PLState) Variants(ino int, maxCuts int) []PLChoice {
+	ops := p.Pending[ino]
 	var out []PLChoice
-	for keep := 0; keep <= len(p.Ops); keep++ {
+	for keep := 0; keep <= len(ops); keep++ {
 		out = append(out, PLChoice{Keep: keep, Cut: -1})
-		if keep < len(p.Ops) {
-			cuts := TearCuts(journal[p.Ops[keep]])
+		if keep < len(ops) {
+			cuts := TearCuts(ops[keep])
 			if maxCuts > 0 && len(cuts) > maxCuts {
 				cuts = append(append([]int64(nil), cuts[:maxCuts-1]...), cuts[len(cuts)-1])
 			}
@@ -107,4 +83,33 @@ func PLVariants(journal []Entry, p Pending, maxCuts int) []PLChoice {
 		}
 	}
 	return out
+}
+
+// Image materialises one admissible image; an inode without a choice keeps nothing
+// of its pending list.
+func (p *PLState) Image(choice map[int]PLChoice) *Image {
+	im := p.Durable.Clone()
+	for ino, c := range choice {
+		ops := p.Pending[ino]
+		if _, ok := im.Files[ino]; !ok {
+			continue
+		}
+		for i := 0; i < c.Keep && i < len(ops); i++ {
+			im.Apply(ops[i], -1)
+		}
+		if c.Cut >= 0 && c.Keep < len(ops) && ops[c.Keep].Kind == KWrite {
+			im.Apply(ops[c.Keep], c.Cut)
+		}
+	}
+	im.gc()
+	return im
+}
+
+// PowerLossImage is the non-incremental form: the image at the instant after journal[:n].
+func PowerLossImage(base *Image, journal []Entry, n int, choice map[int]PLChoice) *Image {
+	p := NewPLState(base)
+	for i := 0; i < n && i < len(journal); i++ {
+		p.Advance(journal[i])
+	}
+	return p.Image(choice)
 }
